@@ -302,4 +302,23 @@ example : ((run State.init [.addPeer 0 .ok, .addPeer 1 .ok, .removePeer 0]).map 
 example : ((run State.init [.addPeer 0 .ok, .createTopic "t", .createChan "t" "c", .tick [.ok], .notify t0 [.ok],
     .notify c1 [.ok]]).map (fun s => s.bag.length)) = some 0 := by decide
 
+/-! ## further non-vacuity examples -/
+
+example : (commandR true [] [] id ⟨0, .up, [("t", "")]⟩ .rejected).conn = .down ∧
+    (commandR true [] [] id ⟨0, .up, [("t", "")]⟩ .rejected).regs = [] ∧
+    (commandR false [] [] id ⟨0, .up, [("t", "")]⟩ .rejected).conn = .up := by decide
+example : precreate [⟨true, none⟩, ⟨false, some ["x"]⟩] = [] :=
+  precreate_all_failed _ (by intro l hl; simp at hl; rcases hl with rfl | rfl <;> simp)
+example : "c" ∈ precreate ([⟨true, none⟩] ++ [⟨true, some ["c"]⟩] ++ [⟨false, some ["x"]⟩]) :=
+  (precreate_ignores_failures [⟨true, some ["c"]⟩] "c" [⟨true, none⟩] [⟨false, some ["x"]⟩]
+    (by intro l hl; simp at hl; subst hl; simp) (by intro l hl; simp at hl; subst hl; simp)).mpr
+    (precreate_partial _ "c" ⟨true, some ["c"]⟩ ["c"] (by simp) rfl rfl (by simp) (by decide) (by decide))
+/-- hypotheses of `in_sync_after_drain_and_two_ticks` on a concrete history: one notification pending, the lookupd restarted -/
+def drainPre : List Step := [.addPeer 0 .ok, .createTopic "t", .lookupdDrop 0]
+def drainSteps : List Step := [.notify t0 [.ok], .tick [.ok], .tick [.ok]]
+example : drainSteps.all loopOnly = true ∧ ticks drainSteps = 2 ∧ (drainSteps.filter isNotify).length = 1 ∧
+    ((run State.init drainPre).map (fun s => s.bag.length)) = some 1 := by decide
+example : ((run State.init (drainPre ++ drainSteps)).map (fun s => (s.bag.length, s.peers.map (fun p => (p.conn == .up, p.regs))))) =
+    some (0, [(true, [("t", "")])]) := by decide
+
 end Nsq.Props.C16More
